@@ -1923,15 +1923,18 @@ coap_parse_oscore_conf_mem(coap_str_const_t conf_mem) {
             coap_log_warn("oscore_conf: Maximum size of recipient_id is 7 bytes\n");
             goto error_free_value_bin;
           }
+          coap_bin_const_t **new_ids;
+
           /* Special case as there are potentially multiple entries */
-          oscore_conf->recipient_id =
-              coap_realloc_type(COAP_STRING,
-                                oscore_conf->recipient_id,
-                                sizeof(oscore_conf->recipient_id[0]) *
-                                (oscore_conf->recipient_id_count + 1));
-          if (oscore_conf->recipient_id == NULL) {
+          new_ids = coap_realloc_type(COAP_STRING,
+                                      oscore_conf->recipient_id,
+                                      sizeof(oscore_conf->recipient_id[0]) *
+                                      (oscore_conf->recipient_id_count + 1));
+          if (new_ids == NULL) {
+            /* the entries so far are still owned by oscore_conf */
             goto error_free_value_bin;
           }
+          oscore_conf->recipient_id = new_ids;
           oscore_conf->recipient_id[oscore_conf->recipient_id_count++] =
               value.u.value_bin;
         } else {
